@@ -1,18 +1,12 @@
 // =============================================================================
-// TRUSTED PRELUDE (unit `tcpconnect`, part 2): the model of `EyeballSet` that unit `eyeballs` PROVES, as seen by a
-// caller of `EyeballSet::finish`.
-//
-// (a) Spec text copied VERBATIM from vx/units/eyeballs.vxu (a unit cannot include part of another unit): `first_err`,
-//     `EyeballSet::{started_seq, wf, same_config}`, `initial_batch`, `EyeballSet::{progress, final_error, c_order, c_once,
-//     c_initial, c_next, c_err_last, c_err_first, c_ok, c_first_success, only_failures_since, c_empty, started_since,
-//     waits_since, dropped_since}`.  Pure definitions, no assumption.
-// (b) ASSUMED HERE, PROVED THERE: `EyeballSet::finish` as an `external_body` stand-in whose contract is the contract
-//     unit `eyeballs` discharges on the REAL body of `finish` (obligations he.finish [C10], he.finish.paced [C11]); the
-//     three `ensures` clauses are those of `//@ fn .. :: finish` in eyeballs.vxu, gathered in `finish_post`.
-//     `./check C10` / `./check C11` run unit `eyeballs` in the same run, so the assumption is discharged whenever
-//     this unit is consulted.  `new`, `push`, `len` are NOT assumed: this unit extracts and verifies their real bodies.
+// SHARED SPECIFICATION TEXT (no assumption: `open spec fn` definitions only) - the vocabulary in which the contracts of
+// `EyeballSet::{join_next, process_all, finish}` (src/happy_eyeballs.rs) are written.
+// Included by unit `eyeballs`, which PROVES those contracts, and by every unit that IMPORTS one of them
+// (`//@ import eyeballs :: .. :: finish` in unit `tcpconnect`): the imported contract text is only meaningful when both
+// units read it against the same definitions, so the definitions live here and nowhere else.
+// Needs in scope: the extracted `HappyEyeballsError`, `EyeballSet`; prelude/eyeballs.rs (FuturesUnordered ghost history,
+// `outcome`).  Moved verbatim out of vx/units/eyeballs.vxu (notes/imports.md).
 // =============================================================================
-
 pub type HappyEyeballsResult<T, E> = Result<T, HappyEyeballsError<E>>;
 
 /// the error `join_next` has recorded after the completions `s` (in completion order): the FIRST failure
@@ -123,27 +117,4 @@ impl<F, T, E> EyeballSet<F, T, E> where F: Future<Output = Result<T, E>> {
     pub open spec fn waits_since(&self, pre: Self) -> int { self.tasks.waits() - pre.tasks.waits() }
     /// number of candidates that left the queue without being started
     pub open spec fn dropped_since(&self, pre: Self) -> int { pre.queue@.len() - self.started_since(pre) - self.queue@.len() }
-}
-
-impl<F, T, E> EyeballSet<F, T, E> where F: Future<Output = Result<T, E>> {
-    /// everything unit `eyeballs` proves about one run (pre -> post, result r) of the real `finish`
-    pub open spec fn finish_post(pre: Self, post: Self, r: HappyEyeballsResult<T, E>) -> bool {
-        // Err(Timeout) only with an overall timeout configured; every other result is exactly what `process_all`
-        // reported (Ok(Ok(v)) -> Ok(v), Ok(Err(e)) -> Err(e)), with everything `process_all` guarantees about it
-        &&& (r is Err && r->Err_0 is Timeout ==> pre.timeout is Some)
-        &&& (!(r is Err && r->Err_0 is Timeout) ==> Self::c_err_last(pre, post, r)
-            && Self::c_err_first(post, r) && Self::c_ok(post, r) && Self::c_empty(pre, r)
-            && Self::c_first_success(pre, post, r))
-        &&& (!(r is Err && r->Err_0 is Timeout) ==> Self::c_order(pre, post) && Self::c_once(pre, post, r)
-            && Self::c_initial(pre, post) && Self::c_next(pre, post, r))
-    }
-
-    /// `EyeballSet::finish` (src/happy_eyeballs.rs): stand-in, contract = the one proved on the real body in unit `eyeballs`
-    #[verifier::external_body]
-    pub async fn finish(&mut self) -> (r: HappyEyeballsResult<T, E>)
-        requires
-            old(self).wf(),
-        ensures
-            Self::finish_post(*old(self), *final(self), r),
-    { unimplemented!() }
 }
